@@ -162,7 +162,7 @@ def send (w : WSt) (opcode n : Nat) : WSt × String :=
   | some frames =>
     let qlen0 := OwnW.qlen w.s
     let (w, fr) := answers w frames
-    let s' := OwnW.send w.g w.s fr
+    let s' := OwnW.send w.g w.s (opcode ≥ 8) fr
     let err :=
       if w.g.async then
         -- full iff some fragment found the queue at its maximum
